@@ -78,11 +78,11 @@ pub fn run(op: &str, args: &[&str]) -> Option<String> {
             let hdr = unhex(hdr)?;
             let mtx = unhex(mtx)?;
             let txs = unhex(txs)?;
-            let header = match deserialize::<BlockHeader>(&hdr) {
+            let header = match crate::ops_codec::ds::<BlockHeader>(&hdr) {
                 Ok(h) => h,
                 Err(_) => return Some("ERR".to_string()),
             };
-            let miner_tx = match deserialize::<Transaction>(&mtx) {
+            let miner_tx = match crate::ops_codec::ds::<Transaction>(&mtx) {
                 Ok(t) => t,
                 Err(_) => return Some("ERR".to_string()),
             };
